@@ -153,6 +153,12 @@ func (c capDev) StoreDeviceAuthorization(ctx context.Context, clientID, deviceCo
 	}
 	for _, d := range s.Devices {
 		if d.UserCode == userCode {
+			for i := len(s.Journal) - 1; i >= 0; i-- {
+				if s.Journal[i].Method == "StoreDeviceAuthorization" {
+					s.Journal[i].Err = op.ErrDuplicateUserCode.Error()
+					break
+				}
+			}
 			return op.ErrDuplicateUserCode
 		}
 	}
